@@ -228,9 +228,12 @@ func genEnc(cfg Config, emit func(string, bool, []string)) {
 		if i%7 == 0 {
 			n = r.IntN(2)
 		}
+		if i%4 == 1 {
+			n = 7 + r.IntN(10) // larger key sets (tags of one object)
+		}
 		var keys []string
 		for j := 0; j < n; j++ {
-			k := make([]byte, r.IntN(3))
+			k := make([]byte, r.IntN(3)+n/6)
 			for x := range k {
 				k[x] = "ab"[r.IntN(2)]
 			}
